@@ -12,6 +12,9 @@ func init() {
 	register("C12",
 		"C12 (FLOW, ordering of durable effects; all decided per function on every CFG path): (a) saveState writes the new state file completely (Encode and Close succeeded: their error branches return) before it removes the old one and before it records the new name; (a') when New loads index and state files no error branch inside the two loading loops returns or exits — unreadable files are skipped — the newest-timestamp test dominates adoption, and adoption is atomic: no store to state that outlives one state file (Manager fields, variables declared outside the loop) is followed by a path that rejects the file; (b) the index magic is written last: the only store to fileHeader.Magic in package index is in Finalize, it is dominated by the end of the data section, by all eleven section writes and by a Flush, nothing but header write, Flush, Close and NewReader follows it, and NewReader compares the magic before it uses any section offset; (c) files are deleted only when superseded: every os.Remove in the non-test code is either in indexReleaser.release (use count zero), on a name created in the same function on an error path, the old state file after the new one is complete, or the old snapshot file after saveSnapshots succeeded; (d) a partly written converter cache tail is tolerated (C15-a). fsync-level durability (there is none: a kill is survivable, a power loss is not), the contents of the files and convergence of tag matches are NOT decided.",
 		ruleC12, ruleC15Tail)
+	register("C13",
+		"C13-k = C12-c (who may delete): every os.Remove outside the upload handler is in indexReleaser.release behind the use-count test, on a name this function created itself (the writers and readers of a failed merge or import), the old state or snapshot file after its successor is complete, or a converter cache deleting its own emptied file. An index file removed anywhere else — index.Merge deleting its inputs 'so that a restart does not find them' (seeded C13n) — vanishes from the directory while a view or a job with an older snapshot still reads it.",
+		func(p *Prog, r *Res) { ruleDeleteOnlySuperseded(p, r, "C13-k delete-only-superseded") })
 }
 
 // callNamed: node contains a call whose callee full name (or method name on a receiver) matches.
@@ -33,12 +36,39 @@ func failureReaches(fl *Flow, callPt Pt, goal func(ast.Node) bool) bool {
 	if len(b.Succs) != 2 || len(b.Nodes) == 0 {
 		return everything() // the error of this call is not tested at the end of its block: its failure flows on
 	}
+	info := fl.F.Pkg.TypesInfo
+	// a step that reports success as a boolean: `if !step(…) { return }`, `ok := step(…); if !ok { … }`
+	if last, isExpr := b.Nodes[len(b.Nodes)-1].(ast.Expr); isExpr {
+		e, neg := ast.Unparen(last), false
+		if u, isU := e.(*ast.UnaryExpr); isU && u.Op == token.NOT {
+			e, neg = ast.Unparen(u.X), true
+		}
+		isTheCall := false
+		if c, isC := e.(*ast.CallExpr); isC && callPt.I == len(b.Nodes)-1 {
+			if t := info.TypeOf(c); t != nil && types.TypeString(t, nil) == "bool" {
+				isTheCall = true
+			}
+		}
+		if id, isId := e.(*ast.Ident); isId && callPt.I < len(b.Nodes)-1 {
+			if as, isAs := fl.node(callPt).(*ast.AssignStmt); isAs && len(as.Lhs) == 1 && identObj(info, as.Lhs[0]) == info.Uses[id] {
+				if t := info.TypeOf(id); t != nil && types.TypeString(t, nil) == "bool" {
+					isTheCall = true
+				}
+			}
+		}
+		if isTheCall {
+			failSucc := b.Succs[1] // the step answered false
+			if neg {
+				failSucc = b.Succs[0]
+			}
+			return fl.Reach([]Pt{{failSucc, 0}}, goal, nil).Found
+		}
+	}
 	cond, ok := b.Nodes[len(b.Nodes)-1].(*ast.BinaryExpr)
 	if !ok || cond.Op != token.NEQ || types.ExprString(cond.Y) != "nil" {
 		return true
 	}
 	// the tested variable must be the one this call's error was assigned to, and nothing in between may overwrite it
-	info := fl.F.Pkg.TypesInfo
 	tested := identObj(info, cond.X)
 	if as, isAs := fl.node(callPt).(*ast.AssignStmt); isAs && tested != nil && callPt.I < len(b.Nodes)-1 {
 		assigned := false
@@ -318,6 +348,12 @@ func ruleC12(p *Prog, r *Res) {
 					if tv, ok := info.Types[c.Args[0]]; ok && tv.Value != nil && types.Identical(types.Unalias(tv.Type), sect) && tv.Value.ExactString() == val {
 						hit = true
 					}
+					// the end mark written in place: setPos(&w.header.Sections[S].End)
+					if kind, sec := sectionMarkOf(p, f, c); kind == "end" {
+						if tv, ok := info.Types[sec]; ok && tv.Value != nil && types.Identical(types.Unalias(tv.Type), sect) && tv.Value.ExactString() == val {
+							hit = true
+						}
+					}
 				}
 				return true
 			})
@@ -416,8 +452,12 @@ func ruleC12(p *Prog, r *Res) {
 		}
 	}
 
+	ruleDeleteOnlySuperseded(p, r, "C12-c delete-only-superseded")
+}
+
+// ruleDeleteOnlySuperseded: who may delete files (C12-c; registered for C13 as C13-k).
+func ruleDeleteOnlySuperseded(p *Prog, r *Res, ruleC string) {
 	// ---------- (c) who may delete files ----------
-	const ruleC = "C12-c delete-only-superseded"
 	r.Rule(ruleC + ": every os.Remove is justified by supersession or by same-function creation")
 	nRem := 0
 	for _, f := range p.FnList {
